@@ -5,6 +5,7 @@ func init() {
 		"\"offered\" = top-level log.KeyValue arguments (duplicates included) passed to the most recent SetAttributes and to every AddAttributes after it; an attribute carried by an emitted API record counts as one AddAttributes argument",
 		"when a value with duplicate nested map keys was offered since the last SetAttributes, only offered <= AttributesLen+DroppedAttributes <= offered + duplicate nested entries is asserted (the SDK counts removed nested duplicates as dropped attributes), and nested maps are compared as key -> value supplied last",
 		"the order in which WalkAttributes yields attributes is not asserted; characters = runes; strings of at most `limit` bytes must be unchanged, longer ones must equal the first `limit` valid characters of the offered string; Bytes values are not limited",
-		"in-place reordering / truncation of the caller's argument slices and nested slices by SetAttributes/AddAttributes is not asserted either way (every call is handed freshly built values)",
+		"in-place reordering / truncation of the caller's argument slices and nested slices by SetAttributes/AddAttributes WHILE the call runs is not asserted either way; the arguments of a call are what the argument slice holds when the call is made",
+		"after a call returned the caller may overwrite / reuse its top-level argument slice (incl. spare capacity) and hand it to other records; the arrays behind log.SliceValue/MapValue/BytesValue are never modified by the caller (documented: 'must not be changed after it is passed'), so nested arrays shared between caller, records and clones are not asserted against; all records of one case have the same limits",
 	))
 }
